@@ -51,7 +51,15 @@ func (r *yieldRewriter) rewriteRanges(block *ast.BlockStmt) {
 					do(cstNewStringIter, n.X)
 				case ty.Info()&types.IsInteger != 0:
 					// >= 1.22 only, but no release, need test
-					do(cstNewIntegerIter, n.X)
+					if key, ok := r.keyTypingConstRange(n); ok {
+						// for i = range 3, the untyped constant has the type of i, not int
+						factory := r.SeqSelect(cstNewIntegerIterOf)
+						init, forStmt := r.rewriteRangeToForIter(n, X.Call(factory, X.Ident(key.Name), n.X))
+						c.InsertBefore(init)
+						c.Replace(forStmt)
+					} else {
+						do(cstNewIntegerIter, n.X)
+					}
 				}
 			case *types.Array:
 				// typing workaround for abstract generic array iter
@@ -73,6 +81,23 @@ func (r *yieldRewriter) rewriteRanges(block *ast.BlockStmt) {
 		}
 		return true
 	})
+}
+
+// for i = range N, N is a constant and i is a variable of an integer type other than int:
+// an untyped N is given the type of i
+func (r *yieldRewriter) keyTypingConstRange(n *ast.RangeStmt) (*ast.Ident, bool) {
+	key, ok := n.Key.(*ast.Ident)
+	if !ok || n.Tok != token.ASSIGN || isUnderline(key) {
+		return nil, false
+	}
+	if tv := r.pkg.TypesInfo.Types[n.X]; tv.Value == nil {
+		return nil, false
+	}
+	keyTy := r.pkg.TypeOf(key)
+	if isNil(keyTy) || types.Identical(keyTy, types.Typ[types.Int]) {
+		return nil, false
+	}
+	return key, true
 }
 
 func (r *yieldRewriter) rewriteRangeToForIter(
